@@ -10,7 +10,7 @@ operand (or an explicit cast / initialiser / argument / return), which is where 
 operator whose operands are *all* unsuffixed typed constants is excluded (HLSL would evaluate it as literal arithmetic).
 -/
 namespace RsslVerif.Spec.Sem
-open RsslVerif.Gen.HlslGenTables RsslVerif.Model
+open RsslVerif.Gen.HlslGenTables RsslVerif.Gen.HlslIntrinsicTables RsslVerif.Model
 open RsslVerif.Model.Ir (Ty Var Const Dir)
 
 namespace Ir
@@ -37,6 +37,13 @@ def typeOf (sig : Sig) (vty : Var → Ty) : Expr → Option Ty
     match sig f with
     | none => none
     | some (rt, ps) => if argsOK sig vty args ps then some rt else none
+  | .intr i T ret args =>
+    -- the resolved signature is (T, …, T) → ret with ret as HLSL defines it; at least one argument
+    match args with
+    | .nil => none
+    | .cons _ _ =>
+      if allTy sig vty T args ∧ ret = Ast.builtinRet i T ∧ Ast.modelledBuiltin i = true ∧ T ≠ .lit ∧ T ≠ .flit then some ret
+      else none
   | .op o args =>
     match args with
     | .cons a .nil =>
@@ -64,6 +71,13 @@ def argsOK (sig : Sig) (vty : Var → Ty) : Exprs → List (Dir × Ty) → Bool
     (match typeOf sig vty e with
       | some t => decide (t = T) && (decide (d = .in_) || (lvalOf e).isSome)
       | none => false) && argsOK sig vty r ps
+/-- every argument has type `T` -/
+def allTy (sig : Sig) (vty : Var → Ty) (T : Ty) : Exprs → Bool
+  | .nil => true
+  | .cons e r =>
+    (match typeOf sig vty e with
+      | some t => decide (t = T)
+      | none => false) && allTy sig vty T r
 def typeOfSeq (sig : Sig) (vty : Var → Ty) : Exprs → Option Ty
   | .nil => none
   | .cons e r =>
@@ -80,6 +94,11 @@ def litlike : Expr → Bool
   | .lit (.int32 _) => true
   | _ => false
 
+/-- all arguments are unsuffixed typed constants (a built-in applied to them would be resolved at literal type) -/
+def allLitlike : Exprs → Bool
+  | .nil => true
+  | .cons e r => litlike e && allLitlike r
+
 mutual
 def litOK : Expr → Bool
   | .lit _ => true
@@ -89,6 +108,7 @@ def litOK : Expr → Bool
   | .tern c t f => litOK c && litOK t && litOK f && !(litlike t && litlike f)
   | .seq es => litOKSeq es
   | .call _ args => litOKArgs args
+  | .intr _ _ _ args => litOKArgs args
   | .op _ args =>
     match args with
     | .cons a .nil => litOK a && !litlike a
